@@ -37,7 +37,20 @@ type CfgEz struct {
 	Hi        int                 `dials:"ez_hi"`
 	Forbidden bool                `dials:"ez_forbidden"`
 	Set       map[string]struct{} `dials:"ez_set"` // written as a list in the file (ez adds the set-to-slice wrapper)
+	DB        EzDB                `dials:"ez_db"`  // two levels of nesting: EZ_DB_TLS_MIN, --ez_db-tls-min
 	EzEmb
+}
+
+type EzDB struct {
+	Host  string `dials:"host"`
+	Port  int    `dials:"port"`
+	TLS   EzTLS  `dials:"tls"`
+	Extra int    `dials:"extra"`
+}
+
+type EzTLS struct {
+	Cert string `dials:"cert"`
+	Min  int    `dials:"min"`
 }
 
 // EzEmb is embedded in CfgEz: with Params.FlattenAnonymousFields a YAML file
@@ -69,6 +82,11 @@ func (c *CfgEz) Verify() error {
 }
 
 var ezLeaves = []string{"ez_a", "ez_b", "ez_c", "ez_name", "ez_lo", "ez_hi", "ez_forbidden"}
+
+// the leaves of the nested section (drawn with a lower probability each)
+var ezNested = []string{"ez_db.host", "ez_db.port", "ez_db.tls.cert", "ez_db.tls.min", "ez_db.extra"}
+
+func ezStringLeaf(k string) bool { return k == "ez_name" || k == "ez_db.host" || k == "ez_db.tls.cert" }
 
 // EzPart: what one layer (or one version of the file) sets, as strings.
 type EzPart struct {
@@ -118,7 +136,7 @@ func genEz(seed uint64, faulty bool) *Scenario {
 	val := func(leaf string, layer int) string {
 		n := int(g.id())
 		switch leaf {
-		case "ez_name":
+		case "ez_name", "ez_db.host", "ez_db.tls.cert":
 			return fmt.Sprintf("n%d", n)
 		case "ez_forbidden":
 			return "false"
@@ -134,6 +152,13 @@ func genEz(seed uint64, faulty bool) *Scenario {
 		for _, l := range ezLeaves {
 			if g.pct(p) {
 				out.Leaves[l] = val(l, idx)
+			}
+		}
+		if g.pct(60) {
+			for _, l := range ezNested {
+				if g.pct(p * 2 / 3) {
+					out.Leaves[l] = val(l, idx)
+				}
 			}
 		}
 		return out
@@ -282,10 +307,10 @@ func (p *EzPart) renderRaw(format string) []byte {
 	sort.Strings(keys)
 	var b strings.Builder
 	q := func(k, v string) string {
-		switch k {
-		case "ez_name":
+		switch {
+		case ezStringLeaf(k):
 			return strconv.Quote(v)
-		case "ez_set":
+		case k == "ez_set":
 			if v == "" {
 				return "[]"
 			}
@@ -297,33 +322,72 @@ func (p *EzPart) renderRaw(format string) []byte {
 		}
 		return v
 	}
+	// sections: a key with dots is a leaf inside nested sections
+	var level func(prefix string, depth int)
+	level = func(prefix string, depth int) {
+		var heads []string
+		seen := map[string]bool{}
+		for _, k := range keys {
+			if !strings.HasPrefix(k, prefix) {
+				continue
+			}
+			head, _, _ := strings.Cut(k[len(prefix):], ".")
+			if !seen[head] {
+				seen[head] = true
+				heads = append(heads, head)
+			}
+		}
+		for i, head := range heads {
+			full := prefix + head
+			_, isLeaf := p.Leaves[full]
+			ind := strings.Repeat("  ", depth)
+			switch format {
+			case "json":
+				if i > 0 || depth == 0 {
+					b.WriteString(", ")
+				}
+				if isLeaf {
+					fmt.Fprintf(&b, "%q: %s", head, q(full, p.Leaves[full]))
+				} else {
+					fmt.Fprintf(&b, "%q: {", head)
+					level(full+".", depth+1)
+					b.WriteString("}")
+				}
+			case "cue": // keys quoted: a kebab-case key is not a Cue identifier
+				if isLeaf {
+					fmt.Fprintf(&b, "%s%q: %s\n", ind, head, q(full, p.Leaves[full]))
+				} else {
+					fmt.Fprintf(&b, "%s%q: {\n", ind, head)
+					level(full+".", depth+1)
+					fmt.Fprintf(&b, "%s}\n", ind)
+				}
+			default: // yaml
+				if isLeaf {
+					fmt.Fprintf(&b, "%s%s: %s\n", ind, head, q(full, p.Leaves[full]))
+				} else {
+					fmt.Fprintf(&b, "%s%s:\n", ind, head)
+					level(full+".", depth+1)
+				}
+			}
+		}
+	}
 	switch format {
 	case "json":
 		b.WriteString("{")
 		fmt.Fprintf(&b, `"ez_stamp": %d`, p.ID)
-		for _, k := range keys {
-			fmt.Fprintf(&b, `, %q: %s`, k, q(k, p.Leaves[k]))
-		}
+		level("", 0)
 		b.WriteString("}")
-	case "toml":
+	case "toml": // dotted keys
 		fmt.Fprintf(&b, "ez_stamp = %d\n", p.ID)
 		for _, k := range keys {
 			fmt.Fprintf(&b, "%s = %s\n", k, q(k, p.Leaves[k]))
 		}
-	case "cue": // keys quoted: a kebab-case key is not a Cue identifier
+	case "cue":
 		fmt.Fprintf(&b, "\"ez_stamp\": %d\n", p.ID)
-		for _, k := range keys {
-			fmt.Fprintf(&b, "%q: %s\n", k, q(k, p.Leaves[k]))
-		}
+		level("", 0)
 	default: // yaml
 		fmt.Fprintf(&b, "ez_stamp: %d\n", p.ID)
-		for _, k := range keys {
-			if outer, inner, nested := strings.Cut(k, "."); nested {
-				fmt.Fprintf(&b, "%s:\n  %s: %s\n", outer, inner, q(k, p.Leaves[k]))
-				continue
-			}
-			fmt.Fprintf(&b, "%s: %s\n", k, q(k, p.Leaves[k]))
-		}
+		level("", 0)
 	}
 	return []byte(b.String())
 }
@@ -391,6 +455,16 @@ func applyLeaves(c *CfgEz, p *EzPart) {
 			c.C = n
 		case "ez_name":
 			c.Name = v
+		case "ez_db.host":
+			c.DB.Host = v
+		case "ez_db.port":
+			c.DB.Port = n
+		case "ez_db.tls.cert":
+			c.DB.TLS.Cert = v
+		case "ez_db.tls.min":
+			c.DB.TLS.Min = n
+		case "ez_db.extra":
+			c.DB.Extra = n
 		case "ez_lo":
 			c.Lo = n
 		case "ez_hi":
@@ -438,7 +512,7 @@ func (r *ezRun) defaults() *CfgEz {
 	return c
 }
 
-var ezEnvNames = map[string]string{"ez_a": "EZ_A", "ez_b": "EZ_B", "ez_c": "EZ_C", "ez_name": "EZ_NAME", "ez_lo": "EZ_LO", "ez_hi": "EZ_HI", "ez_forbidden": "EZ_FORBIDDEN"}
+var ezEnvNames = map[string]string{"ez_db.host": "EZ_DB_HOST", "ez_db.port": "EZ_DB_PORT", "ez_db.tls.cert": "EZ_DB_TLS_CERT", "ez_db.tls.min": "EZ_DB_TLS_MIN", "ez_db.extra": "EZ_DB_EXTRA", "ez_a": "EZ_A", "ez_b": "EZ_B", "ez_c": "EZ_C", "ez_name": "EZ_NAME", "ez_lo": "EZ_LO", "ez_hi": "EZ_HI", "ez_forbidden": "EZ_FORBIDDEN"}
 
 func (r *ezRun) setEnv() func() {
 	var names []string
@@ -464,7 +538,7 @@ func (r *ezRun) flagArgs() []string {
 	}
 	sort.Strings(keys)
 	for _, k := range keys {
-		args = append(args, "--"+k+"="+r.e.Flags.Leaves[k])
+		args = append(args, "--"+strings.ReplaceAll(k, ".", "-")+"="+r.e.Flags.Leaves[k])
 	}
 	if p := r.pathOf("flag"); p != "" {
 		args = append(args, "--ez_path="+p)
